@@ -112,7 +112,8 @@ special = {
 }
 ABORT_SITES = {'compileDeferExpressionNode': ('compileFunction', 'closureCompiler'),
                'compileGoExpressionNode': ('compileFunctionStatements', 'closureCompiler'),
-               'compileClosureLiteralNode': ('compileFunctionStatements', 'closureCompiler')}
+               'compileClosureLiteralNode': ('compileFunctionStatements', 'closureCompiler'),
+               'compileMacroBoundaryNode': ('compileStatementsWithResult', '@scope')}
 PURE = {'nodeIsCompilable', 'resolve', 'typeOf', 'isNestedInFinally'}
 
 callees = {}
@@ -158,6 +159,20 @@ for name in sorted(callees):
         # that the nested compiler carries this compiler's abort-check flag before it compiles
         # anything; the stack accounting of the node stays an assumption (ghostdef)
         callee, var = ABORT_SITES[name]
+        if var == "@scope":
+            # C31: the expansion of a macro is compiled inside a scope of its own, so that a local
+            # it declares gets a slot of its own and cannot overwrite a caller's local of the same name
+            out.append("  props C31")
+            out.append("  nosafety")
+            out.append("  partial")
+            out.append("  requires c != nil")
+            out.append("  assigns everything")
+            proto = (PROTO if 'valueIsIgnored' in params else ONE) + JKEEP
+            out.append(proto.replace("  ensures ", "  ensures ghostdef "))
+            out.append("  assert before %s#1: len(c.scopes) == old(len(c.scopes)) + 1" % callee)
+            out.append("")
+            nleaf += 1
+            continue
         out.append("  props C33")
         out.append("  nosafety")
         out.append("  partial")
